@@ -78,6 +78,10 @@ pub struct Run {
     pub violation_class: String,
     #[serde(default)]
     pub observed: serde_json::Value,
+    /// notification faults decided by the generator that leave no operation behind
+    /// (a lost notification is an absent `deliver`): counted here, informational
+    #[serde(default)]
+    pub gen_faults: BTreeMap<String, u64>,
 }
 
 #[derive(Serialize, Deserialize, Clone, Debug, PartialEq, Eq)]
